@@ -141,6 +141,12 @@ def _query(obj, ctx, q):
             yield from one(obj[k].get_decoded)
     elif n == 'data':
         yield from one(obj.data, conv=blob)
+    elif n == 'secinfo':
+        yield from one(lambda: (obj.name, obj.data_size, obj.data_alignment, bool(obj.compressed), obj.is_null(), canon(obj.header)))
+    elif n == 'seginfo':
+        yield from one(lambda: canon(obj.header))
+    elif n == 'get_interp_name':
+        yield from one(obj.get_interp_name)
     elif n == 'attrs':
         yield from one(lambda: tuple((k, canon(tuple(v))) for k, v in obj.attributes.items()))
     else:
